@@ -1092,3 +1092,233 @@ Section TreeWalk.
     rewrite app_nil_r; exact H1.
   Qed.
 End TreeWalk.
+
+(* ---------------------------------------------------------------------------------------- *)
+(* 12. fault propagation: a divergent / fatal leapfrog ends the transition at once            *)
+(* ---------------------------------------------------------------------------------------- *)
+Section TreeFault.
+  Variable wt : Z -> Q.
+  Variable turn : Z -> Z -> bool.
+  Variable bad : Z -> bool.
+  Variable fatal : Z -> bool.
+
+  (* no faulty evaluation among l *)
+  Definition clean (l : list Z) : Prop :=
+    forall x, In x l -> bad x = false /\ fatal x = false.
+  (* l ends with the divergent (and not fatal) x, everything before is good *)
+  Definition divs (l : list Z) (x : Z) : Prop :=
+    exists l', l = l' ++ [x] /\ clean l' /\ bad x = true /\ fatal x = false.
+  (* l ends with the fatal x, everything before is good *)
+  Definition errs (l : list Z) (x : Z) : Prop :=
+    exists l', l = l' ++ [x] /\ clean l' /\ fatal x = true.
+
+  Lemma clean_nil : clean [].
+  Proof. intros x []. Qed.
+  Lemma clean_app l1 l2 : clean l1 -> clean l2 -> clean (l1 ++ l2).
+  Proof. intros H1 H2 x Hx; apply in_app_iff in Hx; destruct Hx; auto. Qed.
+  Lemma divs_app l0 l x : clean l0 -> divs l x -> divs (l0 ++ l) x.
+  Proof.
+    intros H0 (l' & -> & Hc & Hb). exists (l0 ++ l'). rewrite app_assoc.
+    split; auto. split; auto. apply clean_app; auto.
+  Qed.
+  Lemma errs_app l0 l x : clean l0 -> errs l x -> errs (l0 ++ l) x.
+  Proof.
+    intros H0 (l' & -> & Hc & Hb). exists (l0 ++ l'). rewrite app_assoc.
+    split; auto. split; auto. apply clean_app; auto.
+  Qed.
+
+  Definition sres_fault (l : list Z) (r : sres) : Prop :=
+    match r with
+    | SOk _ | STurn => clean l
+    | SDiv x => divs l x
+    | SErr x => errs l x
+    end.
+  Definition xres_fault (l : list Z) (r : xres) : Prop :=
+    match r with
+    | XOk _ | XTurn _ => clean l
+    | XDiv _ x => divs l x
+    | XErr x => errs l x
+    end.
+  (* the three ways a transition can end *)
+  Definition dres_fault (l : list Z) (r : dres) : Prop :=
+    match d_err r with
+    | Some x => errs l x
+    | None => match d_div r with
+              | Some x => divs l x
+              | None => clean l
+              end
+    end.
+
+  Lemma sres_fault_app l0 l r : clean l0 -> sres_fault l r -> sres_fault (l0 ++ l) r.
+  Proof.
+    destruct r; cbn [sres_fault]; intros;
+      auto using clean_app, divs_app, errs_app.
+  Qed.
+  Lemma dres_fault_app l0 l r : clean l0 -> dres_fault l r -> dres_fault (l0 ++ l) r.
+  Proof.
+    unfold dres_fault; destruct (d_err r); [|destruct (d_div r)]; intros;
+      auto using clean_app, divs_app, errs_app.
+  Qed.
+
+  Lemma sibling_fault j : forall i fwd check l r,
+    outcome (sibling wt turn bad fatal j i fwd check) l r -> sres_fault l r.
+  Proof.
+    induction j as [|j IH]; intros i fwd check l r H; cbn [sibling] in H.
+    - apply outcome_tick_inv in H; destruct H as (l' & -> & H).
+      destruct (fatal i) eqn:Ef; [|destruct (bad i) eqn:Eb];
+        apply outcome_ret_inv in H; destruct H as (-> & ->); cbn [sres_fault].
+      + exists []; split; auto. split; auto using clean_nil.
+      + exists []; split; auto. split; auto using clean_nil.
+      + intros x [<-|[]]; auto.
+    - apply outcome_bind_inv in H; destruct H as (ra & l1 & l2 & H1 & H2 & ->).
+      apply IH in H1.
+      destruct ra as [ta| |x|x];
+        try (apply outcome_ret_inv in H2; destruct H2 as (-> & ->); rewrite app_nil_r; exact H1).
+      cbn [sres_fault] in H1.
+      apply outcome_bind_inv in H2; destruct H2 as (rb & l3 & l4 & H3 & H4 & ->).
+      apply IH in H3. apply sres_fault_app; auto.
+      destruct rb as [tb| |x|x];
+        try (apply outcome_ret_inv in H4; destruct H4 as (-> & ->); rewrite app_nil_r; exact H3).
+      apply outcome_bind_inv in H4; destruct H4 as (m & l5 & l6 & H5 & H6 & ->).
+      apply merge_into_outcome in H5; destruct H5 as (-> & _).
+      apply outcome_ret_inv in H6; destruct H6 as (-> & ->). rewrite app_nil_r.
+      cbn [sres_fault] in H3. destruct (check && _); exact H3.
+  Qed.
+
+  Lemma extend_fault t fwd check l r :
+    outcome (extend wt turn bad fatal t fwd check) l r -> xres_fault l r.
+  Proof.
+    unfold extend; intros H.
+    apply outcome_bind_inv in H; destruct H as (rs & l1 & l2 & H1 & H2 & ->).
+    apply sibling_fault in H1.
+    destruct rs as [tb| |x|x];
+      try (apply outcome_ret_inv in H2; destruct H2 as (-> & ->); rewrite app_nil_r; exact H1).
+    apply outcome_bind_inv in H2; destruct H2 as (m & l5 & l6 & H5 & H6 & ->).
+    apply merge_into_outcome in H5; destruct H5 as (-> & _).
+    apply outcome_ret_inv in H6; destruct H6 as (-> & ->). rewrite app_nil_r.
+    cbn [sres_fault] in H1. destruct (check && _); exact H1.
+  Qed.
+
+  Lemma extra_fault n : forall t fwd l r,
+    outcome (extra_loop wt turn bad fatal n t fwd) l r -> dres_fault l r.
+  Proof.
+    induction n as [|n IH]; intros t fwd l r H; cbn [extra_loop] in H.
+    - apply outcome_ret_inv in H; destruct H as (-> & ->). exact clean_nil.
+    - apply outcome_bind_inv in H; destruct H as (rx & l1 & l2 & H1 & H2 & ->).
+      apply extend_fault in H1.
+      destruct rx as [t'|t'|t' x|x]; cbn [xres_fault] in H1.
+      + apply dres_fault_app; eauto.
+      + apply dres_fault_app; eauto.
+      + apply outcome_ret_inv in H2; destruct H2 as (-> & ->). rewrite app_nil_r. exact H1.
+      + apply outcome_ret_inv in H2; destruct H2 as (-> & ->). rewrite app_nil_r. exact H1.
+  Qed.
+
+  Variable o : nopts.
+
+  Lemma draw_fault f : forall t l r,
+    outcome (draw_loop wt turn bad fatal o f t) l r -> dres_fault l r.
+  Proof.
+    induction f as [|f IH]; intros t l r H; cbn [draw_loop] in H.
+    - apply outcome_ret_inv in H; destruct H as (-> & ->). exact clean_nil.
+    - apply outcome_dir_inv in H; destruct H as (fwd & H).
+      apply outcome_bind_inv in H; destruct H as (rx & l1 & l2 & H1 & H2 & ->).
+      apply extend_fault in H1.
+      destruct rx as [t'|t'|t' x|x]; cbn [xres_fault] in H1.
+      + apply dres_fault_app; eauto.
+      + apply dres_fault_app; auto. eapply extra_fault; eauto.
+      + apply outcome_ret_inv in H2; destruct H2 as (-> & ->). rewrite app_nil_r. exact H1.
+      + apply outcome_ret_inv in H2; destruct H2 as (-> & ->). rewrite app_nil_r. exact H1.
+  Qed.
+
+  Variable a : Z.
+  Notation pdraw := (pdraw wt turn bad fatal o a).
+
+  (* every transition ends in exactly one of three ways: Err at the last tick (fatal), a reported
+     divergence at the last tick (bad, not fatal), or no faulty evaluation at all *)
+  Theorem pdraw_fault ticks r : outcome pdraw ticks r -> dres_fault ticks r.
+  Proof.
+    unfold Tree.pdraw. destruct (n_dim0 o); intros H.
+    - apply outcome_ret_inv in H; destruct H as (-> & ->). exact clean_nil.
+    - eapply draw_fault; eauto.
+  Qed.
+
+  Theorem T9_bad_tick_diverges ticks r i :
+    outcome pdraw ticks r -> d_err r = None ->
+    In i ticks -> bad i = true -> fatal i = false ->
+    d_div r = Some i /\ exists l, ticks = l ++ [i].
+  Proof.
+    intros H He Hi Hb Hf. apply pdraw_fault in H. unfold dres_fault in H. rewrite He in H.
+    destruct (d_div r) as [x|].
+    - destruct H as (l' & -> & Hc & _). apply in_app_iff in Hi. destruct Hi as [Hi|[<-|[]]].
+      + destruct (Hc _ Hi); congruence.
+      + split; eauto.
+    - destruct (H _ Hi); congruence.
+  Qed.
+
+  Theorem T10_fatal_tick_errors ticks r i :
+    outcome pdraw ticks r -> In i ticks -> fatal i = true ->
+    d_err r = Some i /\ exists l, ticks = l ++ [i].
+  Proof.
+    intros H Hi Hf. apply pdraw_fault in H. unfold dres_fault in H.
+    destruct (d_err r) as [x|]; [|destruct (d_div r) as [x|]].
+    - destruct H as (l' & -> & Hc & _). apply in_app_iff in Hi. destruct Hi as [Hi|[<-|[]]].
+      + destruct (Hc _ Hi); congruence.
+      + split; eauto.
+    - destruct H as (l' & -> & Hc & _ & Hx). apply in_app_iff in Hi.
+      destruct Hi as [Hi|[<-|[]]]; [destruct (Hc _ Hi)|]; congruence.
+    - destruct (H _ Hi); congruence.
+  Qed.
+
+  Theorem T11_no_fault_no_flags ticks r :
+    outcome pdraw ticks r ->
+    (forall i, In i ticks -> bad i = false /\ fatal i = false) ->
+    d_div r = None /\ d_err r = None.
+  Proof.
+    intros H Hg. apply pdraw_fault in H. unfold dres_fault in H.
+    destruct (d_err r) as [x|]; [|destruct (d_div r) as [x|]]; auto.
+    - destruct H as (l' & -> & _ & Hx).
+      destruct (Hg x); [apply in_app_iff; right; left; auto | congruence].
+    - destruct H as (l' & -> & _ & Hx & _).
+      destruct (Hg x); [apply in_app_iff; right; left; auto | congruence].
+  Qed.
+
+  Theorem T12_ticks_before_fault_good ticks r l x :
+    outcome pdraw ticks r -> ticks = l ++ [x] ->
+    forall i, In i l -> bad i = false /\ fatal i = false.
+  Proof.
+    intros H E. apply pdraw_fault in H. unfold dres_fault in H.
+    assert (Hc : clean l).
+    { destruct (d_err r) as [y|]; [|destruct (d_div r) as [y|]].
+      - destruct H as (l' & E' & Hc & _). rewrite E in E'.
+        apply app_inj_tail in E'; destruct E'; subst; auto.
+      - destruct H as (l' & E' & Hc & _). rewrite E in E'.
+        apply app_inj_tail in E'; destruct E'; subst; auto.
+      - intros i Hi; apply H. rewrite E; apply in_app_iff; auto. }
+    exact Hc.
+  Qed.
+
+  (* at most one faulty evaluation per transition, and it is the last one *)
+  Corollary T12_at_most_one_fault ticks r l1 i l2 :
+    outcome pdraw ticks r -> ticks = l1 ++ i :: l2 ->
+    bad i = true \/ fatal i = true -> l2 = [].
+  Proof.
+    intros H E Hf. destruct l2 as [|y l2]; auto. exfalso.
+    destruct (exists_last (l := y :: l2) ltac:(discriminate)) as (l' & z & E').
+    rewrite E' in E.
+    assert (E2 : ticks = (l1 ++ i :: l') ++ [z]) by (rewrite E, <- app_assoc; reflexivity).
+    destruct (T12_ticks_before_fault_good _ _ _ _ H E2 i) as (Hb & Hf').
+    - apply in_app_iff; right; left; auto.
+    - destruct Hf; congruence.
+  Qed.
+
+  Theorem T13_draw_is_good_state ticks r :
+    outcome pdraw ticks r -> d_err r = None ->
+    d_sel r = a \/
+    (bad (d_sel r) = false /\ fatal (d_sel r) = false /\ In (d_sel r) ticks).
+  Proof.
+    intros H He. destruct (T1_interval _ _ _ _ _ _ _ _ H He) as (_ & Hs & _).
+    destruct (T5_visited _ _ _ _ _ _ _ _ H He) as (_ & Hv).
+    destruct (Z.eq_dec (d_sel r) a) as [E|E]; auto. right.
+    destruct (Hv _ Hs E) as (? & ? & ?); auto.
+  Qed.
+End TreeFault.
